@@ -4,7 +4,8 @@
  * 2 profile-profile, 3 sequence-profile) and run_parallel in {0,1} (symbolic).  The nine kernel entry points are recorders.
  * CBMC explores all interleavings of the forward and backward tasks.
  * assert: the meet-in-the-middle step starts only after BOTH halves have finished; each half runs exactly once; the halves
- * work on the rectangle halves the controller set up ([starta,mid) forward, [mid,enda) backward).
+ * work on the rectangle halves the controller set up ([starta,mid) forward, [mid,enda) backward); the recursion gets the
+ * rectangle's coordinates and its six (symbolic, pairwise distinct) boundary states in aln_continue's order.
  */
 #include "vk.h"
 #include "tldevel.h"
@@ -24,9 +25,15 @@ FWD(aln_seqprofile_foward, 3) BWD(aln_seqprofile_backward, 3) MEET(aln_seqprofil
 
 /* the recursion on the two sub-rectangles is C07's subject; here it is cut (goto-instrument --replace-calls): reads of the
  * shared aln_mem inside a multi-threaded run are symbolic for CBMC, so the SCORE_ONLY test alone would not stop symex */
-static int cont_calls = 0;
+static int cont_calls = 0, states_ok = 0, cor_ok = 0;
+static float want_states[6];
 int vk_continue_stub(struct aln_mem *m, float input_states[], int old_cor[], int meet, int transition, uint8_t serial)
-{ (void)m; (void)input_states; (void)old_cor; (void)meet; (void)transition; (void)serial; __CPROVER_atomic_begin(); cont_calls++; if (!(fwd_done == 1 && bwd_done == 1 && meet_calls == 1)) meet_early = 1; __CPROVER_atomic_end(); return OK; }
+{ (void)m; (void)meet; (void)transition; (void)serial; __CPROVER_atomic_begin(); cont_calls++; if (!(fwd_done == 1 && bwd_done == 1 && meet_calls == 1)) meet_early = 1;
+  /* C07: the recursion restores the rectangle's boundary states from this array - same layout as in aln_runner_serial
+   * (forward a, ga, gb, backward a, ga, gb), which C07's decision split checks with data */
+  states_ok = 1; for (int k = 0; k < 6; k++) if (!(input_states[k] == want_states[k])) states_ok = 0;
+  cor_ok = (old_cor[0] == 0 && old_cor[1] == VK_ROWS && old_cor[2] == 0 && old_cor[3] == 3 && old_cor[4] == VK_ROWS / 2);
+  __CPROVER_atomic_end(); return OK; }
 
 VK_MAIN()
 {
@@ -39,12 +46,17 @@ VK_MAIN()
         m.starta = 0; m.enda = VK_ROWS; m.startb = 0; m.endb = 3; m.len_a = VK_ROWS; m.len_b = 3;
         m.run_parallel = vin.b[0] & 1;
         m.mode = (vin.b[0] & 2) ? ALN_MODE_SCORE_ONLY : ALN_MODE_FULL;
-        f[0].a = 0.0f; f[0].ga = -FLT_MAX; f[0].gb = -FLT_MAX; b[0] = f[0];
+        /* boundary states of the rectangle: six distinct arbitrary finite values (a hand-over that permutes them is visible) */
+        for (int k = 0; k < 6; k++) { want_states[k] = vin.f[k]; VK_ASSUME(want_states[k] > -1e30f && want_states[k] < 1e30f); }
+        for (int k = 0; k < 6; k++) for (int l = 0; l < k; l++) VK_ASSUME(want_states[k] != want_states[l]);
+        f[0].a = want_states[0]; f[0].ga = want_states[1]; f[0].gb = want_states[2];
+        b[0].a = want_states[3]; b[0].ga = want_states[4]; b[0].gb = want_states[5];
         int rc = aln_runner(&m);
         VK_ASSERT(rc == OK, "aln_runner returns");
         VK_ASSERT(!wrong_kind, "C07: the kernel family matches the operands");
         VK_ASSERT(fwd_started == 1 && fwd_done == 1 && bwd_started == 1 && bwd_done == 1 && meet_calls == 1, "C02: each half and the combination run exactly once");
         VK_ASSERT(!meet_early, "C02: the forward and backward halves are both finished before they are combined");
         VK_ASSERT(fwd_rows_ok && bwd_rows_ok, "C02: the two halves work on the two halves of the rectangle");
+        if (m.mode == ALN_MODE_FULL) VK_ASSERT(cont_calls == 1 && states_ok && cor_ok, "C07: the recursion is handed the rectangle and its six boundary states in the order aln_continue restores them");
         VK_END();
 }
